@@ -189,7 +189,8 @@ func engineGoroutines() map[string]ginfo {
 }
 
 func blocked(state string) bool {
-	for _, p := range []string{"chan send", "chan receive", "select", "semacquire", "sync.", "IO wait", "sleep"} {
+	// (a goroutine that sleeps or waits for I/O will move again: it counts as running)
+	for _, p := range []string{"chan send", "chan receive", "select", "semacquire", "sync."} {
 		if strings.HasPrefix(state, p) {
 			return true
 		}
@@ -198,7 +199,7 @@ func blocked(state string) bool {
 }
 
 // settle waits until the goroutines started on behalf of the run are gone; what is left is either
-// blocked for good (seen blocked in three samples over >= 30 ms) or still running after 3 s.
+// blocked for good (all of them seen blocked in >= 3 samples over >= 300 ms) or still running after 3 s.
 func settle(before map[string]ginfo, n0 int) (left []ginfo, wait string) {
 	for i := 0; i < 20; i++ {
 		if runtime.NumGoroutine() <= n0 {
@@ -208,6 +209,7 @@ func settle(before map[string]ginfo, n0 int) (left []ginfo, wait string) {
 	}
 	deadline := time.Now().Add(3 * time.Second)
 	blockedSamples := 0
+	var blockedSince time.Time
 	sleep := 200 * time.Microsecond
 	for {
 		now := engineGoroutines()
@@ -224,10 +226,14 @@ func settle(before map[string]ginfo, n0 int) (left []ginfo, wait string) {
 			return nil, ""
 		}
 		if allBlocked {
+			if blockedSamples == 0 {
+				blockedSince = time.Now()
+			}
 			blockedSamples++
 			// a lexer blocked on its token channel while no other engine goroutine exists has lost its
-			// only consumer (the parser that has returned): two samples are enough
-			if (lexOnly && blockedSamples >= 2) || (blockedSamples >= 3 && sleep >= 10*time.Millisecond) {
+			// only consumer (the parser that has returned): two samples are enough; anything else must
+			// be seen blocked, with every goroutine of the run blocked, for 300 ms
+			if (lexOnly && blockedSamples >= 2) || (blockedSamples >= 3 && time.Since(blockedSince) >= 300*time.Millisecond) {
 				return left, "blocked"
 			}
 		} else {
